@@ -110,7 +110,8 @@ PROPS = {
                      "Sqlize.C02.indexes_and_keys_from_scripts", "Sqlize.Abs.Idx.emitDown_correct", "Sqlize.Abs.Idx.emitDownKeep_correct",
                      "Sqlize.Table.walkIdx_refines_down", "Sqlize.Table.walkFk_refines_down",
                      "Sqlize.C02.indexes_and_keys_up_then_down", "Sqlize.Abs.Idx.up_then_down", "Sqlize.Abs.Idx.execAll_perm",
-                     "Sqlize.C02.tables_from_scripts", "Sqlize.Migration.migrate_tbl_down", "Sqlize.C02.changed_column_reverted"],
+                     "Sqlize.C02.tables_from_scripts", "Sqlize.Migration.migrate_tbl_down", "Sqlize.C02.changed_column_reverted",
+                     "Sqlize.C02.columns_on_reference_engine", "Sqlize.columns_spec_down", "Sqlize.removed_column_def", "Sqlize.Table.diffCols2_mem_full"],
         "suites": [{"name": "pair"}],
         "corr_points": ["load-old", "load-new", "state-old", "state-new", "Diff", "state-diff", "StringUp", "StringDown"],
         "rule": PAIR_RULE,
@@ -120,8 +121,10 @@ PROPS = {
                        "identity on the column list; end to end from two scripts through the MySQL reader model, Migration.Diff and the down walks: the column "
                        "statements restore the reference engine's old column order (columns_from_scripts), the CREATE/DROP INDEX statements turn its new index "
                        "list back into the old one up to order (a redefined index is re-created as the old side defines it), the foreign-key statements its new "
-                       "key list into the old one unless a key is redefined in place (indexes_and_keys_from_scripts). Remaining parts of "
-                       "Sqlize.C02.Statement_partial (column attributes, primary key, drop suppression, other dialects) are decided by correspondence + Spec.c02 on the Go output.",
+                       "key list into the old one unless a key is redefined in place (indexes_and_keys_from_scripts); a changed column is modified back to the old definition "
+                       "(changed_column_reverted); composed on the reference engine: Spec.execAll of the printed down column statements on the new schema is well-formed at every step and "
+                       "leaves the table with a column list equal to the old side's, other tables untouched (columns_on_reference_engine). Remaining parts of "
+                       "Sqlize.C02.Statement_partial (a changed primary key, COMMENT options, drop suppression, the lift of the index/key clauses to Spec.exec, other dialects) are decided by correspondence + Spec.c02 on the Go output.",
     },
     "C03": {
         "level": "proof",
